@@ -157,7 +157,7 @@ func closeWinScenario(name, kind, point, cause string, discard, pendingPoll, buf
 }
 
 // (2) C11: a data request held inside the application's message listener x what ends the session meanwhile x slow response writer
-func dreqScenario(name, closer string, slowWriter bool) Scenario {
+func dreqScenario(name, closer string, slowWriter, pendingPoll bool) Scenario {
 	return Scenario{Name: name, Run: func(t *testing.T, rec *Rec, g *Gates) {
 		cfg := EngCfg{PI: 25 * time.Second, PT: 20 * time.Second}
 		d := newDirect(t, rec, g, cfg, "polling")
@@ -165,8 +165,10 @@ func dreqScenario(name, closer string, slowWriter bool) Scenario {
 			d.w.Finish()
 			return
 		}
-		d.sc.doPoll(d.c)
-		d.sc.settle()
+		if pendingPoll {
+			d.sc.doPoll(d.c)
+			d.sc.settle()
+		}
 		g.Park("L.message", true)
 		p1 := d.w.Post(d.c.S, []Pkt{d.w.ClientMsg(5, false, 0)}, ReqOpt{})
 		d.c.posts = append(d.c.posts, p1)
@@ -544,7 +546,9 @@ func directFamily() []Scenario {
 	}
 	for _, closer := range []string{"overlappost", "closenow", "close", "srvclose", "pollabort", "peerclose", "overlap", "wrongdir"} {
 		for _, slow := range []bool{false, true} {
-			out = append(out, dreqScenario(fmt.Sprintf("dreq_%s_slow%v", closer, slow), closer, slow))
+			for _, pp := range []bool{true, false} {
+				out = append(out, dreqScenario(fmt.Sprintf("dreq_%s_slow%v_p%v", closer, slow, pp), closer, slow, pp))
+			}
 		}
 	}
 	for _, hold := range []string{"upgrade.gated", "log:upgrading existing transport"} {
